@@ -90,4 +90,151 @@ def run (latency : Nat) (T : Option Nat) : Outcome :=
   | none => pollAt latency T latency
   | some tt => pollAt latency T (min latency tt)
 
+/-! ### Two-sided composition: which side enforces the deadline
+
+A call crosses two `GrpcTimeout` middlewares: the client stack
+(`transport/channel/service/connection.rs`: `GrpcTimeout::new(s, endpoint.timeout)`, installed
+unconditionally, reading the caller's `grpc-timeout` request header) and — when the peer is
+tonic's `transport::Server` — the server stack (`transport/server/mod.rs`:
+`GrpcTimeout::new(s, timeout)` under `RecoverError`).  Each side runs its own timer; the client
+must not rely on the peer honouring the header.  Times are virtual nanoseconds after the call
+started; the wire itself takes no time. -/
+
+/-- How a (response) future ends and when. -/
+inductive Done
+  | inner (t : Nat)     -- the wrapped future's own result, at `t`
+  | timeout (t : Nat)   -- CANCELLED "Timeout expired", produced at `t`
+  | pending             -- never resolves
+deriving DecidableEq, Repr
+
+/-- `ResponseFuture::poll` with `sleep = T.map(tokio::time::sleep)` around a future that resolves
+as `below`: the wrapped future is polled first, so it wins a tie; whatever it resolves to (also an
+error status that came from further down) passes through unchanged if it is there in time. -/
+def cutAt (T : Option Nat) (below : Done) : Done :=
+  match T, below with
+  | none, b => b
+  | some tt, .pending => .timeout tt
+  | some tt, .inner t => if tt < t then .timeout tt else .inner t
+  | some tt, .timeout t => if tt < t then .timeout tt else .timeout t
+
+/-- `GrpcTimeout::call`: the sleep is `effective header configured`. -/
+def stage (header configured : Option Nat) (below : Done) : Done :=
+  cutAt (effective header configured) below
+
+/-- What a handler / silent backend does: answers after `some l`, or never. -/
+def answer (latency : Option Nat) : Done :=
+  match latency with
+  | some l => .inner l
+  | none => .pending
+
+/-- What the peer puts on the wire, as seen by the client: the response head (HEADERS frame) at
+`head`, the end of the response (trailers / END_STREAM) at `done`; `none` = never.
+`cancelled`: the response is the trailers-only CANCELLED "Timeout expired" that a
+deadline-enforcing server produces (`RecoverError`). -/
+structure Reply where
+  cancelled : Bool
+  head : Option Nat
+  done : Option Nat
+deriving DecidableEq, Repr
+
+/-- What the client stack's wrapped future (`SendRequest::send_request`) resolves to: it
+resolves when the response head arrives. -/
+def Reply.headDone (r : Reply) : Done :=
+  match r.head with
+  | none => .pending
+  | some h => if r.cancelled then .timeout h else .inner h
+
+/-- A unary call through the client stack (`Channel` → `GrpcTimeout` → connection), as
+`client::Grpc::unary` reports it.  The middleware's timer covers the response future only,
+i.e. up to the response head; the body is then read with no timer. -/
+def clientCall (caller endpoint : Option Nat) (r : Reply) : Done :=
+  match stage caller endpoint r.headDone with
+  | .inner _ =>
+    match r.done with
+    | some l => .inner l
+    | none => .pending
+  | d => d
+
+/-- A peer that does not enforce deadlines and sends its whole response (head, message,
+trailers) at once after `latency` (or never): a hung backend, a black-holing proxy, a plain
+h2 server, tonic `Routes` served without `transport::Server`'s timeout layer. -/
+def plainPeer (latency : Option Nat) : Reply := ⟨false, latency, latency⟩
+
+/-- A peer that sends the response head at once and finishes the body after `latency` (or never). -/
+def stallPeer (latency : Option Nat) : Reply := ⟨false, some 0, latency⟩
+
+/-- tonic's `transport::Server` (with `Server::timeout = configured`) around a unary handler
+that answers after `handler`: the response head is written when the handler's future (or the
+timer) resolves. -/
+def serverStack (header configured : Option Nat) (handler : Option Nat) : Done :=
+  stage header configured (answer handler)
+
+def tonicPeer (header configured : Option Nat) (handler : Option Nat) : Reply :=
+  match serverStack header configured handler with
+  | .inner t => ⟨false, some t, some t⟩
+  | .timeout t => ⟨true, some t, some t⟩
+  | .pending => ⟨false, none, none⟩
+
+/-- Client stack, then server stack: the caller's timeout is enforced on both sides. -/
+def endToEnd (caller server endpoint : Option Nat) (handler : Option Nat) : Done :=
+  clientCall caller endpoint (tonicPeer caller server handler)
+
+/-! ### What travels: `Request::set_timeout`, the header map, the builders -/
+
+/-- `status.rs`: `TimeoutExpired` is mapped to `Status::cancelled(timeout.to_string())`, and
+`Display for TimeoutExpired` writes "Timeout expired".  (code, message) -/
+def expiredStatus : Nat × Bytes :=
+  (1, [84, 105, 109, 101, 111, 117, 116, 32, 101, 120, 112, 105, 114, 101, 100])
+
+/-- `Request::set_timeout`: `metadata.insert(grpc-timeout, value)` — replaces every value that
+was there.  The header's value list; `none` = the encoder's `expect` panicked. -/
+def setTimeout (hdr : Option (List Bytes)) (d : Nat) : Option (List Bytes) :=
+  match hdr, encode d with
+  | some _, some v => some [v]
+  | _, _ => none
+
+def setTimeouts (ds : List Nat) : Option (List Bytes) := ds.foldl setTimeout (some [])
+
+/-- `GrpcTimeout::call`: `headers.get(grpc-timeout)` is the FIRST value of the header;
+`try_parse_grpc_timeout(..).unwrap_or_else(|_| None)`: a rejected value counts as absent. -/
+def headerTimeout (vals : List Bytes) : Option Nat :=
+  match vals with
+  | [] => none
+  | v :: _ => tryParse v
+
+/-- What `Request::set_timeout d` puts on the wire, as the duration the receiving
+`GrpcTimeout` reads back from the header. -/
+def wire (d : Nat) : Option Nat :=
+  match setTimeouts [d] with
+  | some vals => headerTimeout vals
+  | none => none
+
+/-- Builder calls (`transport::Server` and `Endpoint` have the same shape): `.timeout(t)` sets
+the field; `Endpoint::connect_timeout` sets a different field; `Server::layer` rebuilds the
+struct field by field (`timeout: self.timeout`); every other method touches other fields. -/
+inductive BOp
+  | timeout (t : Nat)
+  | connectTimeout (t : Nat)
+  | layer
+  | other
+deriving DecidableEq, Repr
+
+structure Builder where
+  timeout : Option Nat
+  connectTimeout : Option Nat
+  layers : Nat
+  others : Nat
+deriving DecidableEq, Repr
+
+def Builder.new : Builder := ⟨none, none, 0, 0⟩
+
+def Builder.apply (b : Builder) : BOp → Builder
+  | .timeout t => { b with timeout := some t }
+  | .connectTimeout t => { b with connectTimeout := some t }
+  | .layer => ⟨b.timeout, b.connectTimeout, b.layers + 1, b.others⟩
+  | .other => { b with others := b.others + 1 }
+
+/-- The timeout handed to `GrpcTimeout::new` when the stack is built. -/
+def configured (ops : List BOp) : Option Nat := (ops.foldl Builder.apply Builder.new).timeout
+
 end Timeout
